@@ -330,8 +330,18 @@ REPLAYS = [   # fixed regression inputs (crashes found by this part; see notes/C
     ("for-after-formfeed", "def f():\n    pass\n\x0cfor i: uint256 in range(3):\n    pass\n"),
     ("comprehension", "def f():\n    a: uint256 = [x for x in y]\n"), ("hex-bad", 'a: Bytes[1] = x"zz"\n'),
     ("for-swallows-indent", "for a:\n for b\n"), ("for-swallows-indent-2", "def f():\n for a:\n    for b\n"),
+    # str.splitlines() line notion in parse.py (form feed &c. inside a line shift every later literal's text)
+    ("formfeed-in-comment-decimal", "def f():\n    # c\x0cd\n    x: decimal = 7.25\n"),
+    ("formfeed-midline-spans", "def f():\n    a: uint256 =\x0c 1\n    x: uint256 = 725 + 13\n    y: bytes4 = 0x12345678\n"),
+    ("linesep-in-string-spans", "def f():\n    s: String[3] = 'a\u2028b'\n    x: uint256 = 725 + 13\n"),
+    # positions of the rewritten text as python's parser sees them vs tokenizer positions / character offsets
+    ("formfeed-after-dedent", "@external\ndef f() -> decimal:\n    return y\n\x0cy: constant(decimal) = 1.55 \n"),
+    ("formfeed-in-indent-after-dedent", "event E:\n    x: decimal\n@external\ndef f():\n    if True:\n        pass\n    \x0clog E(x=1.55 )\n"),
+    ("bom-line-1", "\ufeffy: constant(decimal) = 1.55 \n"),
+    ("lone-cr-then-keyword", "event E:\n    x: decimal\n@external\ndef f():\n    a: uint256 = 1\r    log E(x=1.55 )\n"),
+    ("non-ascii-before-literal", "def f():\n    \u00e9: decimal = 1.55 \n"),
 ]
-TEXT_MUTATIONS = ['x"ab" x"cd"', 'x b"12"', 'x"1"', "\x0c", "\r", "\\\n", "for", " in ", ":", 'x"', "log ", "é", ";", "\t"]
+TEXT_MUTATIONS = ['x"ab" x"cd"', 'x b"12"', 'x"1"', "\x0c", "\r", "\\\n", "for", " in ", ":", 'x"', "log ", "é", ";", "\t", "\u2028", "-"]
 
 
 def text_variants(ctx, srcs, n):
@@ -536,6 +546,9 @@ def f(t: address, y: decimal, q: uint256) -> uint256:
 """
 
 
+WS_HOSTILE = ["\x0c", "\x0c\x0c", "", "", "\r", "\x0c\n"]
+
+
 def literal_texts(ctx, n):
     """texts with literals after log / extcall / staticcall followed by blanks, operators, comments"""
     rnd = ctx.rng("c20p-lits")
@@ -565,8 +578,32 @@ def literal_texts(ctx, n):
                 lines.append(f"    if staticcall Foo(t).baz({k1} ,{st} ,{by} ) > {k2} : log E(x={d1} ,n={k2} ,s={st} ,b={by} ){cm}")
             else:
                 lines.append(f"    u{len(lines)}: decimal = (extcall Foo(t).bar({d1} , {k1} )) + (extcall Foo(t).bar({d2}{sp()},{k2}{sp()})){cm}")
-        out.append((f"literals/{i}", LIT_SKELETON.format(body="\n".join(lines))))
+        text = LIT_SKELETON.format(body="\n".join(lines))
+        if i % 3 == 2:       # whitespace on which tokenizer, untokenize, python's parser and str methods disagree
+            text += f"\n{rnd.choice(WS_HOSTILE)}c{i}: constant(decimal) = {rnd.choice(decs)}{sp()}+{sp()}{rnd.choice(decs)} \n"
+            if rnd.random() < 0.5:
+                j = rnd.choice([k for k, ch in enumerate(text) if ch == "\n" and k > text.index("def f(")])
+                text = text[:j] + rnd.choice(["\r", "\n    \x0c", " \x0c", "  # \x0c", "\n    if q > 1:\n        pass\n    \x0c"]) \
+                    + text[j + 1:].lstrip("\n")
+            if rnd.random() < 0.2:
+                text = "\ufeff" + text.lstrip("\n")
+        # "literals/": syntactically valid by construction;  "literals-ws/": with hostile whitespace
+        out.append((("literals/" if text == LIT_SKELETON.format(body="\n".join(lines)) else "literals-ws/") + str(i), text))
     return out
+
+
+def signed_eval(text, conv):
+    """value of a numeric literal under folded unary minus signs and parentheses: "-(-1)", "- 1.5" """
+    import ast
+    e = ast.parse(text.strip(), mode="eval").body
+    sign = 1
+    while isinstance(e, ast.UnaryOp) and isinstance(e.op, (ast.USub, ast.UAdd)):
+        sign = -sign if isinstance(e.op, ast.USub) else sign
+        e = e.operand
+    if not (isinstance(e, ast.Constant) and isinstance(e.value, (int, float)) and not isinstance(e.value, bool)):
+        raise ValueError("not a numeric literal")
+    seg = ast.get_source_segment(text.strip(), e)
+    return sign * (conv(seg.replace("_", "")) if conv is not int else int(seg.replace("_", ""), 0))
 
 
 def literal_problems(src):
@@ -578,19 +615,65 @@ def literal_problems(src):
     from vyper.ast.parse import parse_to_ast
     try:
         mod = parse_to_ast(src)
-        toks = {tuple(t.start): t for t in source_tokens(src)}
+        # token positions comparable with python's parser: it ends a line at a lone "\r", the tokenize module does not
+        tlist = list(source_tokens(re.sub(r"\r(?!\n)", "\n", src)))
     except Exception:  # noqa
         return None
+    plines = re.split(r"(?<=\n)|(?<=\r)(?!\n)", src)
+    toks = {}
+    for i, t in enumerate(tlist):   # python ast columns are utf-8 byte offsets, tokenizer columns are characters
+        toks[(t.start[0], len(t.line[:t.start[1]].encode("utf-8")))] = i
     probs = []
+
+    def canon(kind, v):
+        return (kind, str(abs(v)) if kind in ("Int", "Decimal") else str(v))
+
+    want = []       # values of the NUMBER tokens of the original text (the sign is a separate token)
+    for t in (tlist if want is not None else []):
+        if t.type == pytok.NUMBER:
+            z = t.string.replace("_", "")
+            try:
+                if z[:2] in ("0x", "0X"):
+                    want.append(canon("Hex", t.string))
+                elif z[:2] in ("0b", "0B"):
+                    want.append(canon("Bytes", int(z, 2).to_bytes((len(z) - 2) // 8, "big")))
+                elif z[:2] in ("0o", "0O") or z.isdigit():
+                    want.append(canon("Int", int(z, 0)))
+                else:
+                    want.append(canon("Decimal", Decimal(z)))
+            except Exception:  # noqa
+                want = None
+                break
+    have = []
+    for n in mod.get_descendants(vy_ast.Constant):
+        ty = type(n).__name__
+        if ty in ("Int", "Decimal", "Hex") or (ty == "Bytes" and n.node_source_code[:2] in ("0b", "0B")):
+            have.append(canon(ty, n.value))
+    if want is not None and sorted(want) != sorted(have):
+        extra = sorted(set(have) - set(want))[:3]
+        lost = sorted(set(want) - set(have))[:3]
+        ty = (extra or lost or [("Int",)])[0][0]
+        if any(not t.line.lstrip("\ufeff").isascii() for t in tlist if t.type == pytok.NUMBER):
+            ty = "non-ascii-line"       # python's ast counts UTF-8 bytes, parse.py slices characters
+        probs.append((ty, f"numeric literal nodes {extra} have no NUMBER token of that value in the text; tokens {lost} "
+                          f"have no node of that value"))
     for n in mod.get_descendants(vy_ast.Constant):
         ty = type(n).__name__
         text = n.node_source_code
-        tok = toks.get((n.lineno, n.col_offset))
+        ti = toks.get((n.lineno, n.col_offset))
+        tok = tlist[ti] if ti is not None else None
+        own = tok.string if tok else None
+        if tok is not None and ty in ("Int", "Decimal") and tok.string == "-":   # folded unary minus: "-", ..., NUMBER
+            j = ti
+            while j < len(tlist) and tlist[j].string == "-":
+                j += 1
+            if j < len(tlist) and tlist[j].type == pytok.NUMBER and tlist[j].start[0] == tok.start[0]:
+                own = tok.line[tok.start[1]:tlist[j].end[1]]
         try:
             if ty == "Int":
-                ok = int(ast.literal_eval(text)) == n.value
+                ok = int(signed_eval(text, int)) == n.value
             elif ty == "Decimal":
-                ok = Decimal(text.replace("_", "")) == n.value
+                ok = signed_eval(text, Decimal) == n.value
             elif ty == "Hex":
                 ok = text == n.value
             elif ty in ("Str", "NameConstant"):
@@ -604,12 +687,63 @@ def literal_problems(src):
         except Exception as e:  # noqa: the text of the node is not even a literal
             ok = False
             text = f"{text!r} ({type(e).__name__})"
+        lab = "non-ascii-line" if n.lineno <= len(plines) and not plines[n.lineno - 1].lstrip("\ufeff").isascii() else ty
         if not ok:
-            probs.append((ty, f"{ty} node at {n.lineno}:{n.col_offset} has value {n.value!r} but its source text is {text!r}"))
-        elif tok is None or not (text == tok.string or (ty in ("Str", "Bytes") and text.startswith(tok.string))):
-            probs.append((ty, f"{ty} node at {n.lineno}:{n.col_offset}: source text {text!r} is not the token "
-                              f"{(tok.string if tok else None)!r} standing there"))
+            probs.append((lab, f"{ty} node at {n.lineno}:{n.col_offset} has value {n.value!r} but its source text is {text!r}"))
+        elif tok is None or not (text == own or (ty in ("Str", "Bytes") and text.startswith(tok.string))):
+            probs.append((lab, f"{ty} node at {n.lineno}:{n.col_offset}: source text {text!r} is not the token "
+                              f"{own!r} standing there"))
     return probs
+
+
+def span_problems(src):
+    """Search-level form of adjusted_span_is_original_span on the real output: every significant token of the REAL
+    rewritten text (tokenize(PreParser.reformatted_code)), looked up in the REAL adjustments table at its start and its
+    end, is mapped to a slice of the ORIGINAL text that is the token's own text (the vyper keyword for a rewritten one).
+    -> (n_tokens, problems, [(string, start, end)] of the rewritten text); None if the pre-parser rejects the text"""
+    import vyper.ast.pre_parser as P
+    pp = P.PreParser(False)
+    try:
+        pp.parse(src)
+        rt = source_tokens(pp.reformatted_code)
+    except Exception:  # noqa
+        return None
+    # the tokenize module's lines and columns: a lone "\\r" does not end a line, a leading BOM is not counted
+    lines = re.split(r"(?<=\n)", src[1:] if src[:1] == "\ufeff" else src)
+    vy_kw = set(P.VYPER_CLASS_TYPES) | set(P.CUSTOM_STATEMENT_TYPES) | set(P.CUSTOM_EXPRESSION_TYPES)
+    probs, sig = [], []
+    for r in rt:
+        if r.type not in (pytok.NAME, pytok.NUMBER, pytok.STRING, pytok.OP):
+            continue
+        sig.append((r.string, tuple(r.start), tuple(r.end)))
+        missing = [k for k in (tuple(r.start), tuple(r.end)) if k not in pp.adjustments]
+        (l0, c0), (l1, c1) = r.start, r.end
+        c0 += pp.adjustments.get((l0, c0), 0)
+        c1 += pp.adjustments.get((l1, c1), 0)
+        if not (1 <= l0 <= l1 <= len(lines)):
+            probs.append(f"token {r.string!r} of the rewritten text at {r.start} lies outside the original text")
+            continue
+        text = lines[l0 - 1][c0:c1] if l0 == l1 else lines[l0 - 1][c0:] + "".join(lines[l0:l1 - 1]) + lines[l1 - 1][:c1]
+        kw = tuple(r.start) in pp.keyword_translations and r.string in ("class", "yield", "await")
+        if (text not in vy_kw) if kw else (text != r.string):
+            probs.append(f"token {r.string!r} at {tuple(r.start)}-{tuple(r.end)} of the rewritten text is mapped to "
+                         f"{(l0, c0)}-{(l1, c1)} of the original, which reads {text[:40]!r}")
+        elif missing:
+            probs.append(f"token {r.string!r} of the rewritten text: position {missing[0]} is not a key of adjustments")
+    return len(sig), probs, sig
+
+
+def span_model_tie(cases):
+    """cases: (name, tokens4, [(start, end)] of the significant tokens of tokenize(reformatted_code)) -> list of verdicts
+    0 ok / 1 stream positions not tokenizer-like (hypothesis of adjusted_span_is_original_span) / 2 layout model wrong"""
+    prelude = ("From Coq Require Import Ascii.\nFrom Verif Require Import Base.PyInt C20P.Tok C20P.GenTokConst C20P.PreParse "
+               "C20P.SpanProofs.\nOpen Scope list_scope.\n"
+               'Local Infix "+++" := append (at level 60, right associativity).\n'
+               "Definition chr (n : nat) : string := String (ascii_of_nat n) EmptyString.\n")
+    exprs = [f"span_tie {coq_list(coq_tok(t) for t in toks)} {coq_list(f'({coq_pos(a)}, {coq_pos(b)})' for a, b in exp)}"
+             for _, toks, exp in cases]
+    outs = coqrun.eval_cases(prelude, exprs, "c20pspan", shard=25, timeout=900)
+    return [o.strip() for o in outs]
 
 
 # ---------------------------------------------------------------- the part
@@ -679,6 +813,10 @@ def part_preparse(ctx):
                 key = f"C20:{o['cls']}:{o['frame']}"
                 failing(key, f"parse_to_ast raises {o['cls']} (not a user-facing diagnostic)",
                         {"source": src, "exception": o["cls"], "message": o["msg"], "frame": o["frame"], "origin": name})
+            elif o["kind"] == "user" and name.startswith("literals/"):
+                failing(f"C20:valid-text-rejected:{o['cls']}:{o['frame']}",
+                        f"a text that is valid by construction is rejected with {o['cls']}: {o['msg']}",
+                        {"source": src, "exception": o["cls"], "message": o["msg"], "frame": o["frame"], "origin": name})
         # ---- AST-level tie: literal nodes carry their own text and value
         n_lit_texts = n_lit_nodes_bad = 0
         for name, src in texts:
@@ -692,6 +830,26 @@ def part_preparse(ctx):
                 n_lit_nodes_bad += len(pr)
                 failing(f"C20:literal-span:{pr[0][0]}", "a literal node does not carry its own source text / value: " + pr[0][1],
                         {"source": src, "problems": [m for _, m in pr[:6]], "origin": name})
+        # ---- adjusted_span_is_original_span on the real output (Search), and its layout model / hypothesis (tie)
+        n_span_texts = n_span_tokens = 0
+        span_cases = []
+        for name, src in texts:
+            sp = span_problems(src)
+            if sp is None:
+                continue
+            n_span_texts += 1
+            n_span_tokens += sp[0]
+            if sp[1]:
+                failing("C20:adjusted-span:token", "adjustments do not map a token of the rewritten text to its own original text: "
+                        + sp[1][0], {"source": src, "problems": sp[1][:6], "origin": name})
+            toks = [tok4(t) for t in source_tokens(src)]
+            if len(toks) <= 700 and len(span_cases) < (60 if ctx.tier == "quick" else 600):
+                span_cases.append((name, toks, [(a, b) for _, a, b in sp[2]]))
+        span_bad = []
+        if (COQ / "C20P" / "SpanProofs.vo").exists():
+            for (name, toks, exp), v in zip(span_cases, span_model_tie(span_cases)):
+                if v != "0":
+                    span_bad.append((name, v, toks, exp))
         # ---- (3) tie on token streams
         cases = []
         n_src = 0
@@ -739,6 +897,13 @@ def part_preparse(ctx):
         name, src, why, real = bad_book[0]
         ctx.violation("correspondence-broken", "parse.py bookkeeping disagrees with its model (Book.v): " + why,
                       {"origin": name, "source": src, "real": str(real), "n_mismatches": len(bad_book)})
+    if span_bad and not found:
+        name, v, toks, exp = span_bad[0]
+        ctx.violation("correspondence-broken",
+                      "the tokenizer stream does not satisfy wf_positions (hypothesis of adjusted_span_is_original_span)" if v == "1"
+                      else "layout model of the rewritten text (SpanProofs.spans) disagrees with tokenize(untokenize(result))",
+                      {"origin": name, "verdict": v, "tokens": [list(t) for t in toks][:120], "rewritten_spans": exp[:120],
+                       "n_mismatches": len(span_bad)})
     if shape and not found:
         ctx.violation("translator-rejected", "parse.py bookkeeping no longer has the modelled shape: " + shape[0], {"problems": shape})
     if not b["ok"] and rejected is None and not found:
@@ -753,9 +918,11 @@ def part_preparse(ctx):
                        "real": str(real)[:1500], "n_mismatches": len(mismatches)})
     if rejected is not None and not found:
         ctx.violation("translator-rejected", "cannot translate vyper/ast/pre_parser.py: " + rejected, {"error": rejected})
-    n = len(texts) + n_book + len(model_cases) * (2 if gen_ready else 1)
+    n = len(texts) + n_book + len(model_cases) * (2 if gen_ready else 1) + n_span_texts + len(span_cases)
     ctx.corr["preparse"] = {"texts_parsed": len(texts), "source_token_streams": n_src, "generated_token_streams": len(model_cases) - n_src,
-                            "model_comparisons": len(model_cases) * (2 if gen_ready else 1), "mismatches": len(mismatches), "literal_tie_texts": n_lit_texts, "literal_tie_bad_nodes": n_lit_nodes_bad, "bookkeeping_cases": n_book, "bookkeeping_mismatches": len(bad_book),
+                            "model_comparisons": len(model_cases) * (2 if gen_ready else 1), "mismatches": len(mismatches), "literal_tie_texts": n_lit_texts, "literal_tie_bad_nodes": n_lit_nodes_bad,
+                            "span_search_texts": n_span_texts, "span_search_tokens": n_span_tokens,
+                            "span_model_cases": len(span_cases), "span_model_mismatches": len(span_bad), "bookkeeping_cases": n_book, "bookkeeping_mismatches": len(bad_book),
                             "regenerated_model_used": bool(gen_ready), "input_distribution": dict(sorted(dist.items()))}
     ctx.trusted += ["tools/vlib/c20_preparse2coq.py (CPS translator of the pre-parser methods; validated by the per-run differential)",
                     "coq/C20P/Pragma.v: hand model of the COMMENT block (exact differential); packaging.SpecifierSet abstracted"]
